@@ -87,8 +87,8 @@ theorem runM_child (p : Node) (i : Nat) (s : St) :
 theorem bindParamNode_gen (ev : Node → M Val) (n : Nat) (I : St → Prop) (W : String → Prop)
     (hpar : ∀ s, I s → (s.scope n).parent = none)
     (hwv : ∀ s v x, I s → W v → I (s.withVar n v x))
-    (hdef : ∀ d s r s1, I s → runM (ev d) s = (r, s1) → I s1)
-    (p : Node) (i : Nat) (args : List Val) (s s' : St) (r : Except Sig Unit)
+    (p : Node) (hdef : ∀ d, p.children[1]? = some (some d) → ∀ s r s1, I s → runM (ev d) s = (r, s1) → I s1)
+    (i : Nat) (args : List Val) (s s' : St) (r : Except Sig Unit)
     (hnm : ∀ nm, nodeParamName p = some nm → PlainName nm ∧ W (bytesToString nm))
     (h : I s) (hr : runM (bindParamNode ev n p i args) s = (r, s')) : I s' := by
   unfold bindParamNode at hr
@@ -137,7 +137,7 @@ theorem bindParamNode_gen (ev : Node → M Val) (n : Nat) (I : St → Prop) (W :
                   simp only [hc1] at hr
                   cases hv : runM (ev d) s with
                   | mk rv s1 =>
-                    have hi1 := hdef d s rv s1 h hv
+                    have hi1 := hdef d hc1 s rv s1 h hv
                     rw [hv] at hr
                     cases rv with
                     | error e => simp only at hr; injection hr with _ h2; rw [← h2]; exact hi1
@@ -153,15 +153,15 @@ theorem bindParamNode_gen (ev : Node → M Val) (n : Nat) (I : St → Prop) (W :
 theorem bindParamNodes_gen (ev : Node → M Val) (n : Nat) (I : St → Prop) (W : String → Prop)
     (hpar : ∀ s, I s → (s.scope n).parent = none)
     (hwv : ∀ s v x, I s → W v → I (s.withVar n v x))
-    (hdef : ∀ d s r s1, I s → runM (ev d) s = (r, s1) → I s1)
     (args : List Val) : ∀ (ps : List (Option Node)) (i : Nat) (s s' : St) (r : Except Sig Unit),
+    (∀ p d, some p ∈ ps → p.children[1]? = some (some d) → ∀ s r s1, I s → runM (ev d) s = (r, s1) → I s1) →
     (∀ p nm, some p ∈ ps → nodeParamName p = some nm → PlainName nm ∧ W (bytesToString nm)) → I s →
     runM (bindParamNodes ev n ps i args) s = (r, s') → I s' := by
   intro ps
   induction ps with
-  | nil => intro i s s' r _ h hr; simp only [bindParamNodes, runM_pure] at hr; injection hr with _ h2; rw [← h2]; exact h
+  | nil => intro i s s' r _ _ h hr; simp only [bindParamNodes, runM_pure] at hr; injection hr with _ h2; rw [← h2]; exact h
   | cons o rest ih =>
-    intro i s s' r hok h hr
+    intro i s s' r hdef hok h hr
     cases o with
     | none => simp only [bindParamNodes, runM_throw] at hr; injection hr with _ h2; rw [← h2]; exact h
     | some p =>
@@ -169,13 +169,13 @@ theorem bindParamNodes_gen (ev : Node → M Val) (n : Nat) (I : St → Prop) (W 
       rw [runM_bind] at hr
       cases hb : runM (bindParamNode ev n p i args) s with
       | mk rb s1 =>
-        have hi1 := bindParamNode_gen ev n I W hpar hwv hdef p i args s s1 rb (fun nm hnm => hok p nm (by simp) hnm) h hb
+        have hi1 := bindParamNode_gen ev n I W hpar hwv p (fun d hd => hdef p d (by simp) hd) i args s s1 rb (fun nm hnm => hok p nm (by simp) hnm) h hb
         rw [hb] at hr
         cases rb with
         | error e => simp only at hr; injection hr with _ h2; rw [← h2]; exact hi1
         | ok u =>
           simp only at hr
-          exact ih (i + 1) s1 s' r (fun q nm hq hnm => hok q nm (by simp [hq]) hnm) hi1 hr
+          exact ih (i + 1) s1 s' r (fun q d hq hd => hdef q d (by simp [hq]) hd) (fun q nm hq hnm => hok q nm (by simp [hq]) hnm) hi1 hr
 
 theorem bindContext_gen (n : Nat) (I : St → Prop) (W : String → Prop)
     (hpar : ∀ s, I s → (s.scope n).parent = none) (hwv : ∀ s v x, I s → W v → I (s.withVar n v x))
@@ -282,6 +282,45 @@ theorem bindContext_inv (st : St) (n t : Nat) (A : String → Prop) (htn : t ≠
     refine ⟨_, setValue_parentless n name name v s hp h.2.2.1, ?_⟩
     exact frameInv_withVar st n t A s _ v htn hA h
 
+/-- what the frame theorems need from the evaluation of default expressions: it preserves the invariant `I` of the
+    frame under construction (whatever else it does to the state) -/
+def DefaultPreserves (ev : Node → M Val) (ps : List (Option Node)) (I : St → Prop) : Prop :=
+  ∀ p d, some p ∈ ps → p.children[1]? = some (some d) → ∀ s r s1, I s → runM (ev d) s = (r, s1) → I s1
+
+theorem defaultPreserves_of_keeps (st : St) (ev : Node → M Val) (ps : List (Option Node)) (n t : Nat) (A : String → Prop)
+    (hev : DefaultKeeps ev n t) : DefaultPreserves ev ps (FrameInv st n t A) :=
+  fun _ d _ _ s r s1 h hr => frameInv_default st ev n t A hev d s s1 r h hr
+
+/-- no parameter has a default: `ev` is never called -/
+def NoPreset (ps : List (Option Node)) : Prop := ∀ p, some p ∈ ps → (p.name == "preset") = false
+
+theorem bindParamNode_noPreset (ev ev' : Node → M Val) (fvs : Nat) (p : Node) (i : Nat) (args : List Val)
+    (h : (p.name == "preset") = false) : bindParamNode ev fvs p i args = bindParamNode ev' fvs p i args := by
+  simp only [bindParamNode, h, Bool.false_eq_true, if_false]
+
+theorem bindParamNodes_noPreset (ev ev' : Node → M Val) (fvs : Nat) (args : List Val) :
+    ∀ (ps : List (Option Node)) (i : Nat), NoPreset ps → bindParamNodes ev fvs ps i args = bindParamNodes ev' fvs ps i args := by
+  intro ps
+  induction ps with
+  | nil => intro i _; rfl
+  | cons o rest ih =>
+    intro i h
+    cases o with
+    | none => rfl
+    | some p =>
+      simp only [bindParamNodes]
+      rw [bindParamNode_noPreset ev ev' fvs p i args (h p (by simp)), ih (i + 1) (fun q hq => h q (by simp [hq]))]
+
+theorem buildFrame_noPreset (ev ev' : Node → M Val) (fr : FuncRec) (ps : List (Option Node)) (args : List Val) (h : NoPreset ps) :
+    buildFrame ev fr ps args = buildFrame ev' fr ps args := by
+  simp only [buildFrame, bindParamNodes_noPreset ev ev' _ args ps 0 h]
+
+theorem defaultPreserves_const (ps : List (Option Node)) (I : St → Prop) :
+    DefaultPreserves (fun _ => (pure Val.null : M Val)) ps I := by
+  intro p d _ _ s r s1 h hr
+  simp only [runM_pure] at hr
+  injection hr with _ h2; rw [← h2]; exact h
+
 /-- the state a finished `buildFrame` leaves -/
 structure FrameResult (st : St) (fr : FuncRec) (A : String → Prop) (t fvs : Nat) (st' : St) : Prop where
   fresh : fvs = st.scopes.size
@@ -295,7 +334,7 @@ structure FrameResult (st : St) (fr : FuncRec) (A : String → Prop) (t fvs : Na
 theorem buildFrame_spec (ev : Node → M Val) (fr : FuncRec) (params : List (Option Node)) (args : List Val)
     (st st' : St) (r : Except Sig Nat) (t : Nat) (A : String → Prop)
     (ht : t < st.scopes.size) (hthis : A (bytesToString thisName)) (hsuper : A (bytesToString superName))
-    (hok : NamesOk A params) (hev : DefaultKeeps ev st.scopes.size t)
+    (hok : NamesOk A params) (hev : DefaultPreserves ev params (FrameInv st st.scopes.size t A))
     (h : runM (buildFrame ev fr params args) st = (r, st')) :
     st'.scope t = st.scope t ∧ ∀ fvs, r = .ok fvs → FrameResult st fr A t fvs st' := by
   have htn : t ≠ st.scopes.size := Nat.ne_of_lt ht
@@ -319,7 +358,8 @@ theorem buildFrame_spec (ev : Node → M Val) (fr : FuncRec) (params : List (Opt
   rw [runM_bind] at h
   cases hb : runM (bindParamNodes ev st.scopes.size params 0 args) s2 with
   | mk rb s3 =>
-    have hi3 := bindParamNodes_inv st ev st.scopes.size t A htn hev args params 0 s2 s3 rb hok hi2 hb
+    have hi3 := bindParamNodes_gen ev st.scopes.size (FrameInv st st.scopes.size t A) A (fun s h => h.2.2.1)
+      (fun s v x h hv => frameInv_withVar st _ t A s v x htn hv h) args params 0 s2 s3 rb hev hok hi2 hb
     rw [hb] at h
     cases rb with
     | error e =>
@@ -390,16 +430,19 @@ def DefaultKeepsFrame (ev : Node → M Val) (n : Nat) : Prop :=
 theorem this_ne_super : bytesToString superName ≠ bytesToString thisName := by decide
 
 /-- the tail of `buildFrame` after `this` / `super`: parameters, then the link -/
+theorem defaultPreserves_of_keepsFrame (ev : Node → M Val) (ps : List (Option Node)) (n : Nat) (N : String) (val : Val)
+    (hev : DefaultKeepsFrame ev n) : DefaultPreserves ev ps (NameInv n N val) :=
+  fun _ d _ _ s r s1 h hr => nameInv_scope_eq n N val s s1 (hev d s r s1 hr).1 (hev d s r s1 hr).2 h
+
 theorem frame_finish (ev : Node → M Val) (n ds : Nat) (N : String) (val : Val) (params : List (Option Node)) (args : List Val)
-    (s2 s3 st' : St) (hav : ParamsAvoid N params) (hev : DefaultKeepsFrame ev n) (hi2 : NameInv n N val s2)
+    (s2 s3 st' : St) (hav : ParamsAvoid N params) (hev : DefaultPreserves ev params (NameInv n N val)) (hi2 : NameInv n N val s2)
     (hb : runM (bindParamNodes ev n params 0 args) s2 = (.ok (), s3))
     (hfin : st' = { s3 with scopes := s3.scopes.setIfInBounds n { s3.scope n with parent := some ds } }) :
     st'.defines n N = true ∧ st'.valueIn n N = val ∧ st'.nearest n N = some n := by
   have hi3 : NameInv n N val s3 :=
     bindParamNodes_gen ev n (NameInv n N val) (fun v => v ≠ N) (fun s h => h.2.1)
       (fun s v x h hv => nameInv_withVar n N val s v x hv h)
-      (fun d s r s1 h hr => nameInv_scope_eq n N val s s1 (hev d s r s1 hr).1 (hev d s r s1 hr).2 h)
-      args params 0 s2 s3 (.ok ()) hav hi2 hb
+      args params 0 s2 s3 (.ok ()) hev hav hi2 hb
   have hsame : st'.scope n = { s3.scope n with parent := some ds } := by rw [hfin]; simp [St.scope, hi3.1]
   have hd : st'.defines n N = true := by simpa [St.defines, hsame] using hi3.2.2.1
   exact ⟨hd, by simpa [St.valueIn, hsame] using hi3.2.2.2, nearest_self st' n N hd⟩
@@ -408,7 +451,7 @@ theorem frame_finish (ev : Node → M Val) (n ds : Nat) (N : String) (val : Val)
     called `this` (then the parameter's value replaces it: parameters are written after `this`) -/
 theorem buildFrame_this (ev : Node → M Val) (fr : FuncRec) (params : List (Option Node)) (args : List Val) (st st' : St)
     (fvs : Nat) (tv : Val) (hthis : fr.this = some tv) (hav : ParamsAvoid (bytesToString thisName) params)
-    (hev : DefaultKeepsFrame ev st.scopes.size)
+    (hev : DefaultPreserves ev params (NameInv st.scopes.size (bytesToString thisName) tv))
     (h : runM (buildFrame ev fr params args) st = (.ok fvs, st')) :
     fvs = st.scopes.size ∧ st'.defines fvs (bytesToString thisName) = true ∧
     st'.valueIn fvs (bytesToString thisName) = tv ∧ st'.nearest fvs (bytesToString thisName) = some fvs := by
@@ -453,7 +496,7 @@ theorem buildFrame_this (ev : Node → M Val) (fr : FuncRec) (params : List (Opt
 /-- … and `super` likewise (only a bound `init` has one) -/
 theorem buildFrame_super (ev : Node → M Val) (fr : FuncRec) (params : List (Option Node)) (args : List Val) (st st' : St)
     (fvs : Nat) (sl : Val) (hsuper : fr.super = some sl) (hav : ParamsAvoid (bytesToString superName) params)
-    (hev : DefaultKeepsFrame ev st.scopes.size)
+    (hev : DefaultPreserves ev params (NameInv st.scopes.size (bytesToString superName) sl))
     (h : runM (buildFrame ev fr params args) st = (.ok fvs, st')) :
     fvs = st.scopes.size ∧ st'.defines fvs (bytesToString superName) = true ∧
     st'.valueIn fvs (bytesToString superName) = sl ∧ st'.nearest fvs (bytesToString superName) = some fvs := by
